@@ -125,6 +125,28 @@ func formResolver(wl *CompileWL, s *suppliedObjects, forms map[string]string) pr
 	}))
 }
 
+// invalidReference decides what a failing all-source reference compile of a
+// workload that is meant to be valid means: if the very same files compile
+// when every one of them is supplied as an unlinked descriptor proto, the input
+// form changes the outcome (a violation); if they fail in that form too, the
+// workload generator is wrong (a harness fault).
+func invalidReference(prop string, wl *CompileWL, request []string, ref compileResult) *Verdict {
+	supplied, err := buildSupplied(wl)
+	if err != nil {
+		panic(sim.HarnessFault{Msg: fmt.Sprintf("%s cannot pre-parse its own workload: %v (reference compile: %v)", prop, err, ref.err)})
+	}
+	forms := map[string]string{}
+	for _, f := range wl.names() {
+		forms[f] = "proto"
+	}
+	var alt compileResult
+	comp := &protocompile.Compiler{Resolver: formResolver(wl, supplied, forms), MaxParallelism: 1}
+	if msg := quiesced(func() { alt = doCompile(context.Background(), comp, request) }); msg != "" || alt.err != nil {
+		panic(sim.HarnessFault{Msg: fmt.Sprintf("%s workload generator produced an invalid workload: %v (as descriptor protos: %v %s)", prop, ref.err, alt.err, msg)})
+	}
+	return viol("C09/form-changes-outcome", "with every file supplied as source the compilation fails (%v), with every file supplied as an unlinked descriptor proto it succeeds", ref.err)
+}
+
 // stripSourceInfo re-encodes a FileDescriptorProto without source code info.
 func stripSourceInfo(b []byte) string {
 	var fd descriptorpb.FileDescriptorProto
@@ -141,7 +163,7 @@ func execC09(t *testing.T, c C09Case) *Verdict {
 		return v
 	}
 	if ref.err != nil {
-		panic(sim.HarnessFault{Msg: fmt.Sprintf("C09 workload generator produced an invalid workload: %v", ref.err)})
+		return invalidReference("C09", &c.WL, c.Clients[0].Run.Request, ref)
 	}
 	supplied, err := buildSupplied(&c.WL)
 	if err != nil {
